@@ -264,7 +264,11 @@ fn build_validation_entry_diagnostic(
     let def_loc = locs.defined_location;
 
     let resolved_path = format_path_with_resolved_leaf(path_key, &resolved_leaf);
-    let base_msg = format!("validation error: {entry} for `{resolved_path}`");
+    // The path and the entry reflect key / value text of the input.
+    let base_msg = crate::de_error::terminal_safe_message(std::borrow::Cow::Owned(format!(
+        "validation error: {entry} for `{resolved_path}`"
+    )))
+    .into_owned();
 
     let labels = build_validation_labels(src, ref_loc, def_loc);
 
